@@ -21,6 +21,8 @@ type Clause struct {
 
 type LoopSpec struct {
 	Invariants []*Clause
+	Requires   []*Clause // closures verified as functions of their own
+	Ensures    []*Clause
 }
 
 type AssertSpec struct {
@@ -405,6 +407,22 @@ func (c *Contracts) ParseText(path string, text string, pkgPath string) error {
 					m[n] = &LoopSpec{}
 				}
 				m[n].Invariants = append(m[n].Invariants, cl)
+			case "ensures", "requires":
+				if w != "closure" {
+					return fail(l, "%s only on closures", f[1])
+				}
+				cl, err := parseClause(body, path, l.line)
+				if err != nil {
+					return fail(l, "%v", err)
+				}
+				if cur.Closures[n] == nil {
+					cur.Closures[n] = &LoopSpec{}
+				}
+				if f[1] == "ensures" {
+					cur.Closures[n].Ensures = append(cur.Closures[n].Ensures, cl)
+				} else {
+					cur.Closures[n].Requires = append(cur.Closures[n].Requires, cl)
+				}
 			case "decreases":
 				// recorded, not verified
 			default:
